@@ -86,6 +86,11 @@ def run(ck):
     # ------------------------------------------------------------- R2 / R3
     ck.rule('C20.R2', 'aggregate_proofs (write→read) = LightAggregator::verify on the outer transcript, length prefixes paired with their loops')
     ck.rule('C20.R3', 'ipa_prove (write→read) = ipa_verify')
+    # parameter-length equalities asserted at function entry (assert_eq!(a.len(), b.len())) identify loop domains of the two sides; they are read off the
+    # code (not a name table), so that renaming a parameter on either side keeps the comparison meaningful
+    dyn = param_len_equivalences(w, [IPA + 'ipa_prove', IPA + 'ipa_verify'])
+    nrm = schednorm.Norm(c01.classify_item, dom_equiv={**{k: v for k, v in tables.SCHED_DOM_EQUIV.items() if not k.startswith('param:')}, **dyn},
+                         concat={'INST_COLS': ('COMMITTED_COLS', 'PLAIN_COLS')})
     for rule, a, b in (('C20.R2', LA + 'aggregate_proofs', LA + 'verify'), ('C20.R3', IPA + 'ipa_prove', IPA + 'ipa_verify')):
         trees = []
         for root in (a, b):
@@ -311,3 +316,46 @@ def r10_api_totality(ck, w):
                           f'untriaged panic site in {nid}: {s_["kind"]} {s_["detail"]}: an invalid inner proof (or a malformed input) must yield Err, not a panic',
                           reach.loc(b, s_['term']))
     ck.floor('C20.R10', 'panic sites inspected', total, 3)
+
+
+def param_len_equivalences(w, fn_ids):
+    """{'param:x': 'param:rep'}: parameters whose lengths the functions assert equal (assert_eq!(x.len(), y.len())) are one loop domain"""
+    parent = {}
+
+    def find(x):
+        while parent.get(x, x) != x:
+            x = parent[x]
+        return x
+    seen_in = {}
+    for nid in fn_ids:
+        f = w.fn(nid, required=False)
+        if f is None:
+            continue
+        params = {b['i']: b['n'] for p in f['params'] for b in pat_bindings(p)}
+        for n in walk(f['body']):
+            if not any('assert' in m for m in (n.get('x') or [])):
+                continue
+            lens = []
+            for m in hirq.calls(n):
+                if m.get('m') == 'len':
+                    r = m['recv']
+                    while r.get('k') in ('ref', 'un'):
+                        r = r['e']
+                    if r.get('k') == 'local' and r.get('i') in params:
+                        lens.append('param:' + params[r['i']])
+            for x in lens:
+                seen_in.setdefault(x, set()).add(nid)
+            for x, y in zip(lens, lens[1:]):
+                rx, ry = find(x), find(y)
+                if rx != ry:
+                    parent[rx] = ry
+    classes = {}
+    for x in seen_in:
+        classes.setdefault(find(x), []).append(x)
+    out = {}
+    for members in classes.values():
+        rep = sorted(members, key=lambda m: (-len(seen_in.get(m, ())), m))[0]      # the name most functions share
+        for m in members:
+            if m != rep:
+                out[m] = rep
+    return out
